@@ -245,7 +245,7 @@ def check_one(ps, word, res, before_calls=()):
     res.case(
         case_repr={"params": to_params(ps), "ctor_until_success": ps[5], "word": list(word), "calls": n, "final": fk,
                    "earlier_calls_on_same_instance": [[to_params(tuple(a)), list(b)] for a, b in before_calls]}
-        if res.evaluations % 5003 == 11
+        if res.sample_now(5003)
         else None,
         nontrivial_key=(ps, tuple(word), repr(before_calls)) if any(k != "ok" for k in word) else None,
         outcome_key=(n, fk, tuple(round(b - a, 6) for a, b in zip(d.ends, d.starts[1:]))),
